@@ -143,7 +143,7 @@ class _PW:
                 return node
             raise _NotPointwise()
         if isinstance(node, ast.Attribute):
-            if self.path(node) == "np.pi":
+            if node.attr == "pi" and self.path(node.value) == "np":
                 return node
             raise _NotPointwise()
         if isinstance(node, ast.BinOp) and isinstance(node.op, (ast.Add, ast.Sub, ast.Mult, ast.Div, ast.Pow)):
@@ -310,19 +310,49 @@ def _ufunc2(path):
 
 
 # ------------------------------------------------------------------------------------------- (P4) (D1)
-_prev_np_sum = calls.NP_EXT.get("np.sum")
+def _fuse(E, defs, arr):
+    """the defining facts of element-wise temporaries (`forall v: [guard(v) ->] t[v] == rhs(v)`, one per operator) composed
+    into ONE fact about `arr`:  forall v: guards(v) -> arr[v] == rhs(v) with every temporary t[v] replaced by its own
+    right-hand side.  A purely syntactic consequence of `defs` (substitution of equals under the same bound variable,
+    under the conjunction of the guards of the facts used); it spares z3 the non-linear step  x == n*n |- 2*pi*x == 2*pi*n*n."""
+    v = E.fresh("v", I)
+    table = []
+    for q in defs:
+        if not (z3.is_quantifier(q) and q.is_forall() and q.num_vars() == 1):
+            continue
+        body, guard = z3.substitute_vars(q.body(), v), None
+        if z3.is_implies(body):
+            guard, body = body.arg(0), body.arg(1)
+        if not z3.is_eq(body):
+            continue
+        lhs, rhs = body.arg(0), body.arg(1)
+        if z3.is_select(lhs) and lhs.arg(1).eq(v) and z3.is_const(lhs.arg(0)):
+            table.append((lhs, guard, rhs))
+    mine = [t for t in table if t[0].arg(0).eq(arr.data)]
+    if not mine:
+        return None
+    lhs, guard, rhs = mine[0]
+    guards = [guard] if guard is not None else []
+    for _ in range(len(table) + 1):
+        changed = False
+        for (l2, g2, r2) in table:
+            if l2.eq(lhs):
+                continue
+            new = z3.substitute(rhs, (l2, r2))
+            if not new.eq(rhs):
+                rhs, changed = new, True
+                if g2 is not None:
+                    guards.append(g2)
+        if not changed:
+            break
+    return z3.ForAll([v], z3.Implies(z3.And(guards) if guards else z3.BoolVal(True), lhs == rhs), patterns=[lhs])
 
 
-def _fallback_sum(E, node, st):
-    if _prev_np_sum is not None:
-        return _prev_np_sum(E, node, st)
-    return calls.np_sum(E, E.deref(E.ev(node.args[0], st), st), st)
-
-
-def _np_sum(E, node, st):
+def _np_sum(E, node, st, only_selection=False):
+    """returns None when the call is not one of the recognised forms (the caller then dispatches as usual)"""
     from pyvc.contract import SPECS
-    if len(node.args) != 1 or node.keywords or "c08_sum1" not in SPECS or "c08_sum2" not in SPECS:
-        return _fallback_sum(E, node, st)
+    if "c08_sum1" not in SPECS or "c08_sum2" not in SPECS:
+        return None
     a0 = node.args[0]
     # ---- (P4) sum over a boolean selection of rank-2 arrays
     try:
@@ -347,6 +377,8 @@ def _np_sum(E, node, st):
         if D.elem != "real":
             raise OutsideSubset("selected sum of a non-real expression")
         return E.spec_apply("c08_sum2", [D, shape[0], 0], st)
+    if only_selection:
+        return None
     # ---- (D1) rank-1 element-wise expression: engine reading + proved link to c08_sum1
     try:
         pw = _PW(E, st, 1)
@@ -354,7 +386,7 @@ def _np_sum(E, node, st):
         if not pw.leaves:
             raise _NotPointwise()
     except _NotPointwise:
-        return _fallback_sum(E, node, st)
+        return None
     n0 = len(st.pc)
     arr = E.deref(E.ev(a0, st), st)
     defs = list(st.pc[n0:])
@@ -365,6 +397,9 @@ def _np_sum(E, node, st):
     D = arr if isinstance(a0, ast.Name) else _derived(E, st, 1, arr.shape, body)
     if D.elem != "real":
         return res
+    fused = _fuse(E, defs, arr)
+    if fused is not None:
+        defs = defs + [fused]
     asum = E.sum_inst[key][0]
     n = E.fresh("n", I)
     ln = toz(arr.shape[0])
@@ -381,6 +416,26 @@ def _np_sum(E, node, st):
 
 calls.NP_EXT["np.zeros_like"] = _zeros_like
 calls.NP_EXT["np.log"] = _log
-for _p in ("np.subtract", "np.add", "np.multiply", "np.divide"):
-    calls.NP_EXT[_p] = _ufunc2(_p)
-calls.NP_EXT["np.sum"] = _np_sum
+
+# np.subtract / np.add / np.sum are also registered by other extension modules (loaded later, so their entries win in
+# NP_EXT).  The forms below are recognised in front of the NP_EXT dispatch instead:
+#   * a binary ufunc called with out= / where=   (any contract: every other handler ignores or rejects these keywords)
+#   * np.sum over a boolean selection (P4)        (any contract: no other handler reads a boolean selection)
+#   * np.sum of a rank-1 element-wise expression (D1): only for the functions of autoarray.fit.fit_util
+SUM1_PREFIX = "autoarray.fit.fit_util:"
+
+if not getattr(calls, "_c08_np_call", False):
+    _orig_np_call = calls.np_call
+    _uf_handlers = {p: _ufunc2(p) for p in _UF2}
+
+    def _np_call(E, path, node, st):
+        if path in _uf_handlers and any(k.arg in ("out", "where") for k in node.keywords):
+            return _uf_handlers[path](E, node, st)
+        if path == "np.sum" and len(node.args) == 1 and not node.keywords:
+            r = _np_sum(E, node, st, only_selection=not E.c.key.startswith(SUM1_PREFIX))
+            if r is not None:
+                return r
+        return _orig_np_call(E, path, node, st)
+
+    calls.np_call = _np_call
+    calls._c08_np_call = True
